@@ -643,6 +643,81 @@ pub enum M<N> {
     S,
 }
 "#,
+    // 'static is never the source lifetime
+    r#"#[derive(Logos)]
+pub enum S1 {
+    #[token("a", |_| "x")]
+    A(&'static str),
+    #[token("b", |_| std::borrow::Cow::Borrowed("y"))]
+    B(std::borrow::Cow<'static, str>),
+    #[token("c")]
+    C,
+}
+"#,
+    r#"#[derive(Logos)]
+pub enum S2<'a> {
+    #[regex("a+")]
+    A(&'a str),
+    #[token("s", |_| "lit")]
+    S(&'static str),
+    #[token("d", |_| Box::new(|| 1u8) as Box<dyn Fn() -> u8 + 'static>)]
+    D(Box<dyn Fn() -> u8 + 'static>),
+    #[token("v", |lex| vec![(lex.slice(), "st")])]
+    V(Vec<(&'a str, &'static str)>),
+}
+"#,
+    // lifetimes in the extras and error types
+    r#"#[derive(Logos)]
+#[logos(extras = &'a str)]
+pub enum X1<'a> {
+    #[token("a")]
+    A(&'a str),
+    #[token("b")]
+    B,
+}
+"#,
+    r#"#[derive(Debug, Clone, PartialEq, Default)]
+pub struct Er<'x>(pub Option<&'x str>);
+#[derive(Logos)]
+#[logos(error = Er<'a>, extras = (u8, Option<&'a [u8]>))]
+pub enum X2<'a> {
+    #[token("a")]
+    A(&'a str),
+    #[token("b")]
+    B,
+}
+"#,
+    // a concrete type that mentions another type parameter
+    r#"#[derive(Logos)]
+#[logos(type N = u64, type V = Vec<N>)]
+pub enum X3<N, V> {
+    #[token("a", |_| 1)]
+    A(N),
+    #[token("b", |_| vec![1])]
+    B(V),
+}
+"#,
+    r#"#[derive(Logos)]
+#[logos(type V = Vec<(N, &'a str)>, type N = &'a str)]
+pub enum X5<'a, N, V> {
+    #[token("c")]
+    C(&'a str),
+    #[regex("a+", |lex| lex.slice())]
+    A(N),
+    #[token("b", |lex| vec![(lex.slice(), lex.slice())])]
+    B(V),
+}
+"#,
+    // function pointer with elided (higher-ranked) lifetimes
+    r#"fn c_len(s: &str) -> usize { s.len() }
+#[derive(Logos)]
+pub enum X4 {
+    #[token("a", |_| c_len as fn(&str) -> usize)]
+    A(fn(&str) -> usize),
+    #[token("b")]
+    B,
+}
+"#,
 ];
 
 pub const ENUM_MARKER: &str = "//---ENUM---";
@@ -907,22 +982,24 @@ pub fn rsample_sources(seed: u64, count: usize) -> Vec<(String, String, Vec<Stri
     out
 }
 
-/// Write two crates (library-accepted sources / all others) with one module per source, to be
-/// compiled by the stable toolchain. Separate crates so that expansion-time errors of rejected
-/// definitions cannot hide type errors in accepted ones.
+/// Write three crates (library-accepted clean sources / accepted malformed ones / all others) with one
+/// module per source, to be compiled by the stable toolchain. Separate crates so that expansion-time
+/// errors of rejected or malformed definitions cannot hide type and borrow errors in accepted ones.
 pub fn rsample_write(seed: u64, count: usize, dir: &std::path::Path) -> Value {
     let sources = rsample_sources(seed, count);
     let mut index = vec![];
-    let mut libs = [String::new(), String::new()];
+    let mut libs = [String::new(), String::new(), String::new()];
     for l in libs.iter_mut() {
         l.push_str("#![allow(dead_code, unused_imports, unused_variables, non_camel_case_types, non_snake_case, clippy::all)]\n");
     }
-    for sub in ["acc", "rej"] {
+    // acc: accepted and clean (must compile completely, so that type and borrow checking is reached);
+    // mal: accepted although malformed (may be read as undefined callback paths; only panics count); rej: the rest
+    for sub in ["acc", "mal", "rej"] {
         std::fs::create_dir_all(dir.join(sub).join("src")).unwrap();
     }
     for (i, (src, kind, msgs, clean)) in sources.iter().enumerate() {
-        let which = if kind == "accepted" { 0 } else { 1 };
-        let sub = ["acc", "rej"][which];
+        let which = if kind == "accepted" && *clean { 0 } else if kind == "accepted" { 1 } else { 2 };
+        let sub = ["acc", "mal", "rej"][which];
         libs[which].push_str(&format!("mod m{i};\n"));
         let mut m = String::from("use logos::{Lexer, Logos, Skip, Filter, FilterResult};\n");
         m.push_str("type VErr = ();\ntype VExtras = ();\ntype E = ();\ntype F = ();\ntype X = ();\ntype Y = ();\n");
@@ -946,9 +1023,28 @@ pub fn rsample_write(seed: u64, count: usize, dir: &std::path::Path) -> Value {
                 k += 1;
             }
         }
+        // a callback attached to a variant with a field must return something that can become the field
+        let on_value_variant = |name: &str| -> bool {
+            let Some(pos) = src.find(name) else { return false };
+            let line_start = src[..pos].rfind('\n').map(|x| x + 1).unwrap_or(0);
+            let rest = &src[line_start..];
+            if rest.trim_start().starts_with("#[logos(") {
+                return false;
+            }
+            for l in rest.lines().skip(1) {
+                let t = l.trim_start();
+                if t.starts_with("#[") || t.starts_with("//") {
+                    continue;
+                }
+                return t.contains('(');
+            }
+            false
+        };
         for n in names {
             if n.ends_with("_errcb") {
                 m.push_str(&format!("fn {n}<'s, T: Logos<'s>>(_lex: &mut Lexer<'s, T>) -> VErr {{}}\n"));
+            } else if on_value_variant(&n) {
+                m.push_str(&format!("fn {n}<'s, T: Logos<'s>, R>(_lex: &mut Lexer<'s, T>) -> Filter<R> {{ Filter::Skip }}\n"));
             } else {
                 m.push_str(&format!("fn {n}<'s, T: Logos<'s>>(_lex: &mut Lexer<'s, T>) {{}}\n"));
             }
@@ -957,7 +1053,7 @@ pub fn rsample_write(seed: u64, count: usize, dir: &std::path::Path) -> Value {
         std::fs::write(dir.join(sub).join(format!("src/m{i}.rs")), m).unwrap();
         index.push(json!({"module": i, "crate": sub, "library_outcome": kind, "library_messages": msgs, "clean": clean, "source": src}));
     }
-    for (which, sub) in ["acc", "rej"].iter().enumerate() {
+    for (which, sub) in ["acc", "mal", "rej"].iter().enumerate() {
         let d = dir.join(sub);
         std::fs::write(d.join("src/lib.rs"), &libs[which]).unwrap();
         std::fs::write(d.join("Cargo.toml"), format!("[package]\nname = \"rsample_{sub}\"\nversion = \"0.0.0\"\nedition = \"2021\"\n\n[workspace]\n\n[dependencies]\nlogos = {{ path = \"/repo\" }}\n\n[profile.dev]\ndebug = 0\nincremental = false\n\n[profile.dev.build-override]\nopt-level = 2\n")).unwrap();
